@@ -272,6 +272,54 @@ fn check_valid(c: &LifeCase, model: &Model, image: &[u8], ctx: &mut Ctx) -> V<()
     }
     ctx.bump("validated_images", 1);
     ctx.bump("validated_directories", v.walk.dirs.len() as u64);
+    // a sample also goes through the second, unrelated reader (Python, stdlib only)
+    if c.scramble % 40 == 0 && (v.header.ic == 1 || v.header.ic == 2) && model.tiles.len() <= 3000 {
+        python_reader_check(model, image, ctx)?;
+    }
+    Ok(())
+}
+
+/// Second independent reader: /verif/py/pmt_read.py (codec none/gzip). Missing python3 is not an
+/// error (counted); a disagreement is a violation.
+fn python_reader_check(model: &Model, image: &[u8], ctx: &mut Ctx) -> V<()> {
+    use std::io::Write;
+    use std::process::{Command, Stdio};
+    let script = crate::driver::verif_root().join("py").join("pmt_read.py");
+    let child = Command::new("python3").arg(&script).stdin(Stdio::piped()).stdout(Stdio::piped()).stderr(Stdio::piped()).spawn();
+    let Ok(mut child) = child else {
+        ctx.bump("python_unavailable", 1);
+        return Ok(());
+    };
+    let tiles: Vec<(u64, usize, u32)> = model
+        .tiles
+        .iter()
+        .map(|(id, b)| {
+            let mut c = flate2::Crc::new();
+            c.update(b);
+            (*id, b.len(), c.sum())
+        })
+        .collect();
+    let absent: Vec<u64> = model.tiles.keys().take(10).map(|i| i + 1).filter(|i| !model.tiles.contains_key(i)).collect();
+    let want = serde_json::json!({"tiles": tiles, "absent": absent}).to_string();
+    if let Some(mut si) = child.stdin.take() {
+        let _ = si.write_all(&(image.len() as u64).to_le_bytes());
+        let _ = si.write_all(image);
+        let _ = si.write_all(want.as_bytes());
+    }
+    let Ok(out) = child.wait_with_output() else {
+        ctx.bump("python_unavailable", 1);
+        return Ok(());
+    };
+    let text = String::from_utf8_lossy(&out.stdout).trim().to_string();
+    if text.starts_with("OK ") {
+        ctx.bump("images_validated_by_python_reader", 1);
+        return Ok(());
+    }
+    if text.starts_with("SKIP") || (!out.status.success() && text.is_empty() && String::from_utf8_lossy(&out.stderr).contains("No such file")) {
+        ctx.bump("python_unavailable", 1);
+        return Ok(());
+    }
+    ensure!(false, "C02:python-reader-disagrees", "the second independent reader (py/pmt_read.py) rejects the archive: {text} {}", String::from_utf8_lossy(&out.stderr).lines().last().unwrap_or(""));
     Ok(())
 }
 
